@@ -25,6 +25,9 @@ pub enum Slot {
     Absent,
     Scalar,
     Object,
+    /// The name is defined with a nil value (only in seeded histories; the exhaustive space is the
+    /// quantifier's {absent, scalar, object}).
+    Nil,
 }
 const SLOTS: [Slot; 3] = [Slot::Absent, Slot::Scalar, Slot::Object];
 
@@ -75,6 +78,8 @@ const BASES: [(Slot, Slot); 3] = [(Slot::Absent, Slot::Absent), (Slot::Scalar, S
 enum MV {
     S(i64),
     O(i64),
+    /// nil
+    N,
 }
 
 #[derive(Clone, Debug)]
@@ -96,6 +101,7 @@ fn slot_value(s: Slot, tag: i64) -> Option<MV> {
         Slot::Absent => None,
         Slot::Scalar => Some(MV::S(tag)),
         Slot::Object => Some(MV::O(tag)),
+        Slot::Nil => Some(MV::N),
     }
 }
 
@@ -185,6 +191,7 @@ fn mv_value(v: MV) -> Value {
             o.insert("a".into(), Value::scalar(n));
             Value::Object(o)
         }
+        MV::N => Value::Nil,
     }
 }
 
@@ -245,6 +252,7 @@ fn observe(rt: &dyn Runtime, model: &Model, st: &mut Stats) -> Result<(), Fail> 
                 sig.u64(match w {
                     MV::S(_) => 1,
                     MV::O(_) => 2,
+                    MV::N => 3,
                 })
                 .u64(model.origin(p).map(|i| i as u64 + 1).unwrap_or(0));
             }
@@ -276,7 +284,7 @@ fn observe(rt: &dyn Runtime, model: &Model, st: &mut Stats) -> Result<(), Fail> 
         if !ok {
             return Err(("R3-counters".into(), format!("get_index({k:?}) gives {:?} but the model's shared counters hold {:?}", got.map(|v| v.source().to_string()), want)));
         }
-        sig.u64(want.map(|w| match w { MV::S(_) => 1, MV::O(_) => 2 }).unwrap_or(0));
+        sig.u64(want.map(|w| match w { MV::S(_) => 1, MV::O(_) => 2, MV::N => 3 }).unwrap_or(0));
     }
     // abstract-state signature: layer kinds + what is observable
     for l in &model.layers {
@@ -465,6 +473,21 @@ fn violation(base: (Slot, Slot), ops: &[Op], fixed: bool, class: String, detail:
     Violation { signature: class.clone(), class, detail: format!("{detail}; base data {base:?}; {mode}; history {ops:?}"), scenario: serde_json::to_value(&scn).unwrap() }
 }
 
+/// The exhaustive alphabet plus scopes that define a name as nil.
+fn extended_ops() -> Vec<Op> {
+    let mut v = all_ops();
+    let all = [Slot::Absent, Slot::Scalar, Slot::Object, Slot::Nil];
+    for a in all {
+        for b in all {
+            if a == Slot::Nil || b == Slot::Nil {
+                v.push(Op::PushPlain(a, b));
+                v.push(Op::PushSandbox(a, b));
+            }
+        }
+    }
+    v
+}
+
 fn random_history(rng: &mut Rng, ops: &[Op], len: usize) -> Vec<Op> {
     let mut h = vec![];
     let mut depth = 0usize;
@@ -578,10 +601,12 @@ impl Engine for C18 {
         } else {
             let mut rng = Rng::new(run_seed(master, "C18", index));
             let per_run = if quick { 500 } else { 2000 };
+            let ext = extended_ops();
             for i in 0..per_run {
                 let len = 4 + rng.below(9);
                 let b = BASES[rng.below(3)];
-                let h = random_history(&mut rng, &ops, len);
+                let use_ext = rng.chance(1, 2);
+                let h = random_history(&mut rng, if use_ext { &ext } else { &ops }, len);
                 let fixed = rng.chance(1, 2);
                 if let Err((c, d)) = run_history(b, &h, true, fixed, &mut st) {
                     rep.violations.push(violation(b, &h, fixed, c, d));
